@@ -3,7 +3,7 @@ package react
 // Conformance harness for C18 (the ReAct agent alternates model and tools faithfully and stops).
 // Reads the cases that TLC generated from spec/ReAct.tla (VERIF_CASES), builds the REAL agent through the public API of this
 // package with a scripted chat model (records the messages of every call; Generate and Stream forms with the case's chunking)
-// and recording tools, runs Generate and then Stream, and writes the observations (VERIF_OUT) that TLC validates against
+// and recording tools, runs Generate and Stream on ONE agent (one after the other, or overlapping in time), and writes the observations (VERIF_OUT) that TLC validates against
 // spec/ReActObs.tla (rule: spec/ReActRule.tla).  No expectation is computed here.
 
 import (
@@ -58,6 +58,8 @@ type vrCase struct {
 	API      string            `json:"api"`      // tcm (ToolCallingModel) | legacy (Model + BindTools)
 	Pipe     bool              `json:"pipe"`     // the model streams through a pipe fed by a goroutine instead of an array reader
 	Nested   bool              `json:"nested"`   // the agent's exported graph runs as a node of a parent graph (ExportGraph)
+	Overlap  string            `json:"overlap"`  // "" the two runs follow each other | "generate-first" | "stream-first": they overlap in time
+	Order    map[string][]int  `json:"order"`    // script message number -> completion order of its tool result streams (wide messages)
 }
 
 const vrModelCallBudget = 40
@@ -66,12 +68,26 @@ const vrMaxHangs = 10
 
 var vrHangs int32
 
+// vrSub is the recorder of ONE run (Generate or Stream) of a case; model and tools find it through the context, so the two runs of
+// a case can use the same agent at the same time and still be projected run by run.
+type vrSub struct {
+	mode    string
+	mu      sync.Mutex
+	lines   []string
+	k       int           // model calls of this run so far
+	arrived chan struct{} // closed when the first model call of this run has arrived at the model
+	waitFor *vrSub        // overlap: the first model call of this run returns only after that run's first model call has arrived
+	rounds  map[int]*vrRound
+}
+
+type vrRound struct{ closed int32 } // tool result streams of this tools round closed so far (gated completion order)
+
+type vrSubKey struct{}
+
 type vrRun struct {
-	c      *vrCase
-	mu     sync.Mutex
-	lines  []string
-	k      int
-	stream bool
+	c     *vrCase
+	mu    sync.Mutex
+	stray []string // observations made without a run in the context
 }
 
 func vrJSON(v any) string {
@@ -82,15 +98,31 @@ func vrJSON(v any) string {
 	return string(b)
 }
 
-func (r *vrRun) emit(ev string, kv ...any) {
+func vrLine(ev string, kv ...any) string {
 	var sb strings.Builder
 	sb.WriteString(`{"ev":` + vrJSON(ev))
 	for i := 0; i+1 < len(kv); i += 2 {
 		sb.WriteString("," + vrJSON(kv[i].(string)) + ":" + vrJSON(kv[i+1]))
 	}
 	sb.WriteString("}")
+	return sb.String()
+}
+
+func (r *vrRun) sub(ctx context.Context) *vrSub {
+	s, _ := ctx.Value(vrSubKey{}).(*vrSub)
+	return s
+}
+
+func (r *vrRun) emit(ctx context.Context, ev string, kv ...any) {
+	line := vrLine(ev, kv...)
+	if s := r.sub(ctx); s != nil {
+		s.mu.Lock()
+		s.lines = append(s.lines, line)
+		s.mu.Unlock()
+		return
+	}
 	r.mu.Lock()
-	r.lines = append(r.lines, sb.String())
+	r.stray = append(r.stray, line)
 	r.mu.Unlock()
 }
 
@@ -113,17 +145,34 @@ func vrRenderAll(ms []*schema.Message) []map[string]any {
 	return out
 }
 
+func vrWaitClosed(ch chan struct{}, d time.Duration) {
+	select {
+	case <-ch:
+	case <-time.After(d):
+	}
+}
+
 // ------------------------------------------------------------------------------------------------ scripted model
 
 type vrModel struct{ r *vrRun }
 
-func (m *vrModel) next(input []*schema.Message) (*vrScriptMsg, error) {
+func (m *vrModel) next(ctx context.Context, input []*schema.Message) (*vrScriptMsg, error) {
 	r := m.r
-	r.emit("mcall", "input", vrRenderAll(input))
-	r.mu.Lock()
-	r.k++
-	k := r.k
-	r.mu.Unlock()
+	r.emit(ctx, "mcall", "input", vrRenderAll(input))
+	k := 1
+	if s := r.sub(ctx); s != nil {
+		s.mu.Lock()
+		s.k++
+		k = s.k
+		s.mu.Unlock()
+		if k == 1 {
+			close(s.arrived)
+			if s.waitFor != nil {
+				// overlapping runs: this run is still in its first model step when the other run starts its own
+				vrWaitClosed(s.waitFor.arrived, 2*time.Second)
+			}
+		}
+	}
 	if k > vrModelCallBudget {
 		return nil, errors.New("verif: model call budget exhausted (the agent does not stop)")
 	}
@@ -181,7 +230,7 @@ func vrChunks(s *vrScriptMsg, chunking string) []*schema.Message {
 }
 
 func (m *vrModel) Generate(ctx context.Context, input []*schema.Message, _ ...model.Option) (*schema.Message, error) {
-	s, err := m.next(input)
+	s, err := m.next(ctx, input)
 	if err != nil {
 		return nil, err
 	}
@@ -189,7 +238,7 @@ func (m *vrModel) Generate(ctx context.Context, input []*schema.Message, _ ...mo
 }
 
 func (m *vrModel) Stream(ctx context.Context, input []*schema.Message, _ ...model.Option) (*schema.StreamReader[*schema.Message], error) {
-	s, err := m.next(input)
+	s, err := m.next(ctx, input)
 	if err != nil {
 		return nil, err
 	}
@@ -226,24 +275,69 @@ func (t *vrTool) Info(context.Context) (*schema.ToolInfo, error) {
 	return &schema.ToolInfo{Name: t.name, Desc: "verif tool"}, nil
 }
 
-func (t *vrTool) run(args string) string {
+func (t *vrTool) run(ctx context.Context, args string) string {
 	out := t.name + "(" + args + ")"
-	t.r.emit("tool", "name", t.name, "args", args, "out", out)
+	t.r.emit(ctx, "tool", "name", t.name, "args", args, "out", out)
 	return out
 }
 
 type vrInvTool struct{ vrTool }
 
 func (t *vrInvTool) InvokableRun(ctx context.Context, args string, _ ...tool.Option) (string, error) {
-	return t.run(args), nil
+	return t.run(ctx, args), nil
 }
 
 type vrStrTool struct{ vrTool }
 
+// rank of the call with these arguments in the completion order the case prescribes for its (wide) assistant message; 0 = none
+func (r *vrRun) rank(args string) int {
+	for j, m := range r.c.Script {
+		ord := r.c.Order[fmt.Sprint(j+1)]
+		if len(ord) == 0 {
+			continue
+		}
+		for i, k := range m.Calls {
+			if k.Args == args {
+				for q, x := range ord {
+					if x == i+1 {
+						return q + 1
+					}
+				}
+			}
+		}
+	}
+	return 0
+}
+
 func (t *vrStrTool) StreamableRun(ctx context.Context, args string, _ ...tool.Option) (*schema.StreamReader[string], error) {
-	out := t.run(args)
+	out := t.run(ctx, args)
 	h := len(out) / 2
-	return schema.StreamReaderFromArray([]string{out[:h], out[h:]}), nil
+	q, s := t.r.rank(args), t.r.sub(ctx)
+	if q == 0 || s == nil {
+		return schema.StreamReaderFromArray([]string{out[:h], out[h:]}), nil
+	}
+	// gated completion order: every result stream delivers its first half at once; the second half and the close of the stream
+	// with rank q come only after the streams of rank 1..q-1 are closed (and the reader had time to see that)
+	s.mu.Lock()
+	rd := s.rounds[s.k]
+	if rd == nil {
+		rd = &vrRound{}
+		s.rounds[s.k] = rd
+	}
+	s.mu.Unlock()
+	sr, sw := schema.Pipe[string](2)
+	go func() {
+		defer atomic.AddInt32(&rd.closed, 1)
+		defer sw.Close()
+		sw.Send(out[:h], nil)
+		deadline := time.Now().Add(2 * time.Second)
+		for atomic.LoadInt32(&rd.closed) < int32(q-1) && time.Now().Before(deadline) {
+			time.Sleep(50 * time.Microsecond)
+		}
+		time.Sleep(400 * time.Microsecond)
+		sw.Send(out[h:], nil)
+	}()
+	return sr, nil
 }
 
 // ------------------------------------------------------------------------------------------------ one case
@@ -265,13 +359,13 @@ func vrWholeChecker(_ context.Context, sr *schema.StreamReader[*schema.Message])
 	}
 }
 
-func (r *vrRun) logErr(err error) {
+func (r *vrRun) logErr(ctx context.Context, err error) {
 	text := err.Error()
 	limit := errors.Is(err, compose.ErrExceedMaxSteps) || strings.Contains(text, compose.ErrExceedMaxSteps.Error())
 	if len(text) > 200 {
 		text = text[:200]
 	}
-	r.emit("error", "steplimit", limit, "is", errors.Is(err, compose.ErrExceedMaxSteps), "text", text)
+	r.emit(ctx, "error", "steplimit", limit, "is", errors.Is(err, compose.ErrExceedMaxSteps), "text", text)
 }
 
 func vrRunCase(c *vrCase) []string {
@@ -294,126 +388,172 @@ func vrRunCase(c *vrCase) []string {
 		}
 		return x
 	}
-	r.emit("case", "id", c.ID, "msgs", msgs, "script", script, "tools", strs(c.Tools), "rd", strs(c.Rd), "maxstep", c.MaxStep,
-		"modifier", c.Modifier, "checker", c.Checker, "chunking", c.Chunking, "api", c.API, "pipe", c.Pipe, "nested", c.Nested)
-	ctx := context.Background()
-	for _, mode := range []string{"generate", "stream"} {
-		r.mu.Lock()
-		r.k = 0
-		r.mu.Unlock()
-		r.emit("run", "mode", mode)
-		func() {
-			defer func() {
-				if p := recover(); p != nil {
-					s := fmt.Sprint(p)
-					if len(s) > 200 {
-						s = s[:200]
-					}
-					r.emit("error", "steplimit", false, "is", false, "text", "PANIC: "+s)
-				}
-			}()
-			conf := &AgentConfig{MaxStep: c.MaxStep}
-			if c.API == "legacy" {
-				conf.Model = &vrLegacyModel{vrModel{r}}
-			} else {
-				conf.ToolCallingModel = &vrModel{r}
-			}
-			for _, name := range c.Tools {
-				if c.TKinds[name] == "str" {
-					conf.ToolsConfig.Tools = append(conf.ToolsConfig.Tools, &vrStrTool{vrTool{r, name}})
-				} else {
-					conf.ToolsConfig.Tools = append(conf.ToolsConfig.Tools, &vrInvTool{vrTool{r, name}})
-				}
-			}
-			if c.Modifier {
-				conf.MessageModifier = NewPersonaModifier("sys")
-			}
-			if len(c.Rd) > 0 {
-				conf.ToolReturnDirectly = map[string]struct{}{}
-				for _, n := range c.Rd {
-					conf.ToolReturnDirectly[n] = struct{}{}
-				}
-			}
-			if c.Checker == "whole" {
-				conf.StreamToolCallChecker = vrWholeChecker
-			}
-			ag, err := NewAgent(ctx, conf)
-			if err != nil {
-				r.emit("note", "text", "NewAgent: "+err.Error())
-				return
-			}
-			input := make([]*schema.Message, 0, len(c.Msgs))
-			for _, m := range c.Msgs {
-				input = append(input, &schema.Message{Role: schema.RoleType(m.Role), Content: m.Content})
-			}
-			generate := func() (*schema.Message, error) { return ag.Generate(ctx, input) }
-			stream := func() (*schema.StreamReader[*schema.Message], error) { return ag.Stream(ctx, input) }
-			if c.Nested {
-				sub, opts := ag.ExportGraph()
-				pg := compose.NewGraph[[]*schema.Message, *schema.Message]()
-				err := pg.AddGraphNode("agent", sub, opts...)
-				if err == nil {
-					err = pg.AddEdge(compose.START, "agent")
-				}
-				if err == nil {
-					err = pg.AddEdge("agent", compose.END)
-				}
-				var run compose.Runnable[[]*schema.Message, *schema.Message]
-				if err == nil {
-					run, err = pg.Compile(ctx)
-				}
-				if err != nil {
-					r.emit("note", "text", "parent graph: "+err.Error())
-					return
-				}
-				generate = func() (*schema.Message, error) { return run.Invoke(ctx, input) }
-				stream = func() (*schema.StreamReader[*schema.Message], error) { return run.Stream(ctx, input) }
-			}
-			if mode == "generate" {
-				out, err := generate()
-				if err != nil {
-					r.logErr(err)
-					return
-				}
-				r.emit("answer", "msg", vrRender(out), "chunks", 1)
-				return
-			}
-			sr, err := stream()
-			if err != nil {
-				r.logErr(err)
-				return
-			}
-			defer sr.Close()
-			var chunks []*schema.Message
-			for {
-				m, err := sr.Recv()
-				if err == io.EOF {
-					break
-				}
-				if err != nil {
-					r.logErr(err)
-					return
-				}
-				chunks = append(chunks, m)
-			}
-			if len(chunks) == 0 {
-				r.emit("answer", "msg", vrRender(nil), "chunks", 0)
-				return
-			}
-			whole, err := schema.ConcatMessages(chunks)
-			if err != nil {
-				r.emit("error", "steplimit", false, "is", false, "text", "concat of the answer stream: "+err.Error())
-				return
-			}
-			r.emit("answer", "msg", vrRender(whole), "chunks", len(chunks))
-		}()
-		// let stragglers (none expected) settle before the run is closed
-		r.emit("endrun")
+	order := c.Order
+	if order == nil {
+		order = map[string][]int{}
 	}
-	r.emit("end")
+	lines := []string{vrLine("case", "id", c.ID, "msgs", msgs, "script", script, "tools", strs(c.Tools), "rd", strs(c.Rd), "maxstep", c.MaxStep,
+		"modifier", c.Modifier, "checker", c.Checker, "chunking", c.Chunking, "api", c.API, "pipe", c.Pipe, "nested", c.Nested,
+		"overlap", c.Overlap, "order", order)}
+	ctx0 := context.Background()
+
+	// ONE agent for both runs of the case
+	conf := &AgentConfig{MaxStep: c.MaxStep}
+	if c.API == "legacy" {
+		conf.Model = &vrLegacyModel{vrModel{r}}
+	} else {
+		conf.ToolCallingModel = &vrModel{r}
+	}
+	for _, name := range c.Tools {
+		if c.TKinds[name] == "str" {
+			conf.ToolsConfig.Tools = append(conf.ToolsConfig.Tools, &vrStrTool{vrTool{r, name}})
+		} else {
+			conf.ToolsConfig.Tools = append(conf.ToolsConfig.Tools, &vrInvTool{vrTool{r, name}})
+		}
+	}
+	if c.Modifier {
+		conf.MessageModifier = NewPersonaModifier("sys")
+	}
+	if len(c.Rd) > 0 {
+		conf.ToolReturnDirectly = map[string]struct{}{}
+		for _, n := range c.Rd {
+			conf.ToolReturnDirectly[n] = struct{}{}
+		}
+	}
+	if c.Checker == "whole" {
+		conf.StreamToolCallChecker = vrWholeChecker
+	}
+	ag, err := NewAgent(ctx0, conf)
+	if err != nil {
+		return append(lines, vrLine("note", "text", "NewAgent: "+err.Error()), vrLine("end"))
+	}
+	generate := func(ctx context.Context, in []*schema.Message) (*schema.Message, error) { return ag.Generate(ctx, in) }
+	stream := func(ctx context.Context, in []*schema.Message) (*schema.StreamReader[*schema.Message], error) {
+		return ag.Stream(ctx, in)
+	}
+	if c.Nested {
+		sub, opts := ag.ExportGraph()
+		pg := compose.NewGraph[[]*schema.Message, *schema.Message]()
+		err := pg.AddGraphNode("agent", sub, opts...)
+		if err == nil {
+			err = pg.AddEdge(compose.START, "agent")
+		}
+		if err == nil {
+			err = pg.AddEdge("agent", compose.END)
+		}
+		var run compose.Runnable[[]*schema.Message, *schema.Message]
+		if err == nil {
+			run, err = pg.Compile(ctx0)
+		}
+		if err != nil {
+			return append(lines, vrLine("note", "text", "parent graph: "+err.Error()), vrLine("end"))
+		}
+		generate = func(ctx context.Context, in []*schema.Message) (*schema.Message, error) { return run.Invoke(ctx, in) }
+		stream = func(ctx context.Context, in []*schema.Message) (*schema.StreamReader[*schema.Message], error) {
+			return run.Stream(ctx, in)
+		}
+	}
+
+	// the input of a run: the case's messages; the Stream run's last message is marked, so the two runs are told apart
+	inputOf := func(mode string) []*schema.Message {
+		in := make([]*schema.Message, 0, len(c.Msgs))
+		for i, m := range c.Msgs {
+			content := m.Content
+			if mode == "stream" && i == len(c.Msgs)-1 {
+				content += "~s"
+			}
+			in = append(in, &schema.Message{Role: schema.RoleType(m.Role), Content: content})
+		}
+		return in
+	}
+	one := func(s *vrSub, input []*schema.Message) {
+		ctx := context.WithValue(ctx0, vrSubKey{}, s)
+		defer func() {
+			if p := recover(); p != nil {
+				t := fmt.Sprint(p)
+				if len(t) > 200 {
+					t = t[:200]
+				}
+				r.emit(ctx, "error", "steplimit", false, "is", false, "text", "PANIC: "+t)
+			}
+		}()
+		if s.mode == "generate" {
+			out, err := generate(ctx, input)
+			if err != nil {
+				r.logErr(ctx, err)
+				return
+			}
+			r.emit(ctx, "answer", "msg", vrRender(out), "chunks", 1)
+			return
+		}
+		sr, err := stream(ctx, input)
+		if err != nil {
+			r.logErr(ctx, err)
+			return
+		}
+		defer sr.Close()
+		var chunks []*schema.Message
+		for {
+			m, err := sr.Recv()
+			if err == io.EOF {
+				break
+			}
+			if err != nil {
+				r.logErr(ctx, err)
+				return
+			}
+			chunks = append(chunks, m)
+		}
+		if len(chunks) == 0 {
+			r.emit(ctx, "answer", "msg", vrRender(nil), "chunks", 0)
+			return
+		}
+		whole, err := schema.ConcatMessages(chunks)
+		if err != nil {
+			r.emit(ctx, "error", "steplimit", false, "is", false, "text", "concat of the answer stream: "+err.Error())
+			return
+		}
+		r.emit(ctx, "answer", "msg", vrRender(whole), "chunks", len(chunks))
+	}
+
+	modes := []string{"generate", "stream"}
+	if c.Overlap == "stream-first" {
+		modes = []string{"stream", "generate"}
+	}
+	subs := make([]*vrSub, 2)
+	inputs := make([][]*schema.Message, 2)
+	for i, mode := range modes {
+		subs[i] = &vrSub{mode: mode, arrived: make(chan struct{}), rounds: map[int]*vrRound{}}
+		inputs[i] = inputOf(mode)
+	}
+	if c.Overlap == "" {
+		for i := range subs {
+			one(subs[i], inputs[i])
+		}
+	} else {
+		// the second run starts while the first one is inside its first model step, and the first one goes on only when the second
+		// has reached the model too: the runs overlap on the one agent
+		subs[0].waitFor = subs[1]
+		var wg sync.WaitGroup
+		wg.Add(2)
+		go func() { defer wg.Done(); one(subs[0], inputs[0]) }()
+		vrWaitClosed(subs[0].arrived, 2*time.Second)
+		go func() { defer wg.Done(); one(subs[1], inputs[1]) }()
+		wg.Wait()
+	}
+	for i, s := range subs {
+		s.mu.Lock()
+		lines = append(lines, vrLine("run", "mode", s.mode, "msgs", vrRenderAll(inputs[i])))
+		lines = append(lines, s.lines...)
+		lines = append(lines, vrLine("endrun"))
+		s.mu.Unlock()
+	}
 	r.mu.Lock()
-	defer r.mu.Unlock()
-	return r.lines
+	for _, l := range r.stray {
+		lines = append(lines, vrLine("stray", "line", l))
+	}
+	r.mu.Unlock()
+	return append(lines, vrLine("end"))
 }
 
 func TestVerifReact(t *testing.T) {
